@@ -20,11 +20,13 @@ LEAF_IMG = {"int": "Int", "str": "String", "bool": "Boolean", "float": "Float", 
 
 UNARY = ["list", "List", "Sequence", "Collection", "set", "tuple1", "Optional", "orNone", "Gen", "Callable0", "CallableNone"]
 BINARY = ["dict", "Mapping", "tuple2", "Union", "bar", "Callable1"]
-LITERALS = [("Lit", "1"), ("Lit", '"a"'), ("Lit", "True"), ("Lit", "None"), ("Lit", '1, "a"'), ("Lit", '"a", "b"'), ("Lit", "True, 1"), ("Lit", "1, None")]
+LITERALS = [("Lit", "1"), ("Lit", '"a"'), ("Lit", "True"), ("Lit", "None"), ("Lit", '1, "a"'), ("Lit", '"a", "b"'), ("Lit", "True, 1"), ("Lit", "1, None"), ("Lit", "Color.RED")]
 LIT_ATOMS = {
     "1": [("lit", "int:1")], '"a"': [("lit", "str:a")], "True": [("lit", "bool:True")], "None": [("null",)],
     '1, "a"': [("lit", "int:1"), ("lit", "str:a")], '"a", "b"': [("lit", "str:a"), ("lit", "str:b")],
     "True, 1": [("lit", "bool:True"), ("lit", "int:1")], "1, None": [("lit", "int:1"), ("null",)],
+    # Safe-DS literal types hold int / float / string / boolean / null only: the member of an enum is (a value of) the enum
+    "Color.RED": [("n", "Color", ())],
 }  # fmt: skip
 # constructors on which the statement is silent: enumerated, judged by self-consistency (compositionality / position) only
 EXTRA_UNARY = ["type", "Iterable", "frozenset", "tupleEllipsis", "CallableEllipsis", "Annotated"]
@@ -237,17 +239,19 @@ def enumerate_terms(tier: str):
                         yield t, 2
 
 
-POSITIONS = ["param", "ctor_param", "result", "class_attr", "inst_attr"]
+POSITIONS = ["param", "ctor_param", "result", "class_attr", "inst_attr", "property", "final_attr"]
 
 
 def render_case(cid: int, t) -> str:
     s = src(t)
     generic = has(t, ("T", "TB"))
     out = [f"def f{cid}(p: {s}) -> {s}:", "    ..."]
+    if generic:
+        # the type variable occurs in the RESULT only: it still has to be declared as a type parameter of the function
+        out += ["", "", f"def g{cid}() -> {s}:", "    ..."]
     if not generic:
         # class-level positions (a bare TypeVar is illegal outside a generic class)
-        fin = f"Final[{s}]" if False else s
-        out += ["", "", f"class K{cid}:", f"    a: {fin}", "", f"    def __init__(self, q: {s}) -> None:", f"        self.x: {s} = q"]
+        out += ["", "", f"class K{cid}:", f"    a: {s}", f"    af: Final[{s}] = None  # type: ignore", "", f"    def __init__(self, q: {s}) -> None:", f"        self.x: {s} = q", "", "    @property", f"    def pp(self) -> {s}:", "        ..."]
     return "\n".join(out) + "\n"
 
 
@@ -292,9 +296,9 @@ def run(rep: Report, tier: str, seed: int) -> None:
     for i, (t, depth) in enumerate(enumerate_terms(tier)):
         cases.append(Case(i, render_case(i, t), (t, depth), (), label(t)))
     rep.rule = (
-        f"annotation terms over {len(LEAVES)} leaves (builtins, None, Any, local / imported / forward-referenced class, enum, type variables, NamedTuple / TypedDict / dataclass classes, a subclass of a NamedTuple class, a subclass of tuple[int, str]) + 8 Literal forms and 17 listed (+6 unlisted) constructors: depth<=1 complete; depth 2 "
+        f"annotation terms over {len(LEAVES)} leaves (builtins, None, Any, local / imported / forward-referenced class, enum, type variables, NamedTuple / TypedDict / dataclass classes, a subclass of a NamedTuple class, a subclass of tuple[int, str]) + 9 Literal forms (one of an enum member) and 17 listed (+6 unlisted) constructors: depth<=1 complete; depth 2 "
         + ("complete for unary inner terms (binary outer: one depth-1 child + one leaf, both orders)" if tier == "thorough" else "fixed slice (every constructor over every constructor)")
-        + "; each term in 5 positions (parameter, constructor parameter, result, class attribute, instance attribute); distinct = distinct term"
+        + "; each term in 7 positions (parameter, constructor parameter, result, class attribute, instance attribute, result of a property, Final[...] class attribute); distinct = distinct term"
     )
     failing: dict[str, set] = {p: set() for p in POSITIONS}
     per_group = 1500 if tier == "quick" else 3000
@@ -333,7 +337,21 @@ def run(rep: Report, tier: str, seed: int) -> None:
                         observed["class_attr"] = norm(m.type)
                     if m.kind == "attr" and m.py_name == "x":
                         observed["inst_attr"] = norm(m.type)
+                    if m.kind == "attr" and m.py_name == "af":
+                        observed["final_attr"] = norm(m.type)
+                    if m.kind == "attr" and m.py_name == "pp":
+                        observed["property"] = norm(m.type)
             exp = ref(t)
+            g = idx.find(f"g{cid}", "fun")
+            if g:
+                shown = " ".join(r.type.render() for r in (g[0][2].results or []) if r.type)
+                need = {n for n in ("T", "TB") if has(t, (n,)) and re.search(rf"\b{n}\b", shown)}  # (a term rendered as 'unknown' mentions no variable)
+                got_tp = {tp.name for tp in g[0][2].type_params}
+                if need <= got_tp:
+                    rep.ok("type-variable-declared")
+                else:
+                    rep.violation("type-variable-declared", f"type-variable-declared:result-only:{ctor_shape(t) if len(t) == 1 else t[0]}", {"term": c.label, "annotation": src(t), "declared": sorted(got_tp), "needed": sorted(need)},
+                                  files={f"{PKG}/__init__.py": "", f"{PKG}/support.py": SUPPORT, f"{PKG}/m.py": (HEADER + c.src).replace("@MOD@", "m000000")}, src_rel=PKG, opts=opts)
 
             def viol(clause, pos, detail, t=t, c=c) -> None:
                 # attribution to the smallest failing sub-term must not depend on the order in which groups complete:
@@ -372,7 +390,7 @@ def run(rep: Report, tier: str, seed: int) -> None:
                 else:
                     viol("image", pos, {"expected": show(exp), "observed": show(ob) if not isinstance(ob, str) else ob})
             # position independence for all terms (listed or not): the non-result positions agree
-            vals = {p: observed[p] for p in ("param", "ctor_param", "class_attr", "inst_attr") if p in observed}
+            vals = {p: observed[p] for p in ("param", "ctor_param", "class_attr", "inst_attr", "property", "final_attr") if p in observed}
             if len(vals) >= 2:
                 base_pos, base = next(iter(vals.items()))
                 for p, v in vals.items():
